@@ -5,7 +5,7 @@ from common import ABC
 
 NAME = "Nft"
 
-_c = dict(ITEMS=2, BITS=2, MinTempTtl=1, MaxTtl=6000000, Now0=10, BUG="none")
+_c = dict(ITEMS=2, BITS=2, MinTempTtl=16, MaxTtl=6000000, Now0=10, BUG="none")
 AB = {"a", "b"}
 
 # ownership configurations: the owner acts with its own authorization; mints, transfers, burns
@@ -19,7 +19,7 @@ _own_c = dict(_own, FLAVOUR="consecutive", OpSet={"batch", "transfer", "burn"}, 
 _auth = dict(_c, Acct=ABC, AuthMode="all", RcSet={"c"}, ToSet={"b", "c"}, FromSet=AB, PreMode="two",
              OpSet={"approve", "approve_for_all", "transfer_from", "burn_from", "transfer", "burn"},
              MaxId=2, XIds=set(), NS={1}, TIds={0}, DUs={0, 1}, DTs={0, 1})
-_auth_t = dict(DUs={-1, 0, 1, 5999999, 6000000}, DTs={0, 1, 2}, TIds={0, 1})
+_auth_t = dict(DUs={-1, 0, 1, 5999999, 6000000})
 _inv = ["NoViolation", "Refines"]
 
 
@@ -111,7 +111,7 @@ MODEL = dict(
         _mc("own_base", dict(_own_be, FLAVOUR="base", Depth=5), dict(Depth=6)),
         _mc("own_enum", dict(_own_be, FLAVOUR="enumerable", Depth=5), dict(Depth=6)),
         _mc("own_cons", dict(_own_c, Depth=4), dict(Depth=5)),
-        _mc("auth_base", dict(_auth, FLAVOUR="base", Depth=3), dict(_auth_t, Depth=3)),
+        _mc("auth_base", dict(_auth, FLAVOUR="base", Depth=3), dict(Depth=4)),
         _mc("auth_enum", dict(_auth, FLAVOUR="enumerable", Depth=2), dict(Depth=3)),
         _mc("auth_cons", dict(_auth, FLAVOUR="consecutive", Depth=3), dict(_auth_t, Depth=3)),
         # vacuity guards: re-introduced bugs must make the monitors fail
